@@ -227,6 +227,8 @@ func loopProgress(c *core.Ctx, r *core.Rule) {
 			switch {
 			case a.LB >= 1:
 				r.OK(key, p.InstrPos(a.At), fmt.Sprintf("advances by at least %d per iteration", a.LB))
+			case a.Taint && a.LB <= 0 && a.LBNoWrap >= 1 && a.WrappedGuard && !a.WideGuard:
+				r.Violate(key, p.InstrPos(a.At), "the loop advances by a sum computed in a narrow unsigned type, which wraps to 0 for the largest field values, and the only length test in front of it compares the wrapped sum itself, so it lets the wrapped case through: the same bytes are parsed again on every iteration and decoding never returns", nil)
 			case a.Taint && a.LB <= 0 && a.LBNoWrap >= 1:
 				r.Undecided(key, p.InstrPos(a.At), "positive unless narrow arithmetic wraps; whether a wrapping value can pass the dominating guards is not decided")
 			case a.Taint && a.LB <= 0 && a.LB > -1<<30 && exitsIndependent(a) == false:
